@@ -16,7 +16,7 @@ namespace Ubx.Py
 open Ubx Ubx.Gen.Code
 
 /-- objects of the raw level: the reader and the stream object it was given -/
-inductive WO where
+inductive SWO where
   | self
   | stream
 deriving Repr
@@ -28,8 +28,8 @@ structure RawStream (τ : Type) where
 
 variable {τ : Type}
 
-def rawMcall (R : RawStream τ) (obj : V WO) (m : Name) (args : List (V WO)) (_kw : List (Name × V WO)) (t : τ) :
-    X WO (V WO) × τ :=
+def rawMcall (R : RawStream τ) (obj : V SWO) (m : Name) (args : List (V SWO)) (_kw : List (Name × V SWO)) (t : τ) :
+    X SWO (V SWO) × τ :=
   match obj with
   | .host .stream =>
     if m = 0x72656164 then                     -- read(size)
@@ -43,12 +43,12 @@ def rawMcall (R : RawStream τ) (obj : V WO) (m : Name) (args : List (V WO)) (_k
     else (raiseX xUnsupported, t)
   | _ => (raiseX xUnsupported, t)
 
-def rawAttr (obj : V WO) (a : Name) (_t : τ) : X WO (V WO) :=
+def rawAttr (obj : V SWO) (a : Name) (_t : τ) : X SWO (V SWO) :=
   match obj with
   | .host .self => if a = 0x5f73747265616d then .ok (.host .stream) else raiseX xUnsupported
   | _ => raiseX xUnsupported
 
-def rawHost (R : RawStream τ) : Host WO τ where
+def rawHost (R : RawStream τ) : Host SWO τ where
   glob := fun _ => none
   call := fun _ _ _ t => (raiseX xUnsupported, t)
   mcall := rawMcall R
@@ -62,14 +62,14 @@ def rawHost (R : RawStream τ) : Host WO τ where
 theorem raw_mcall (R : RawStream τ) : (rawHost R).mcall = rawMcall R := rfl
 theorem raw_attr (R : RawStream τ) : (rawHost R).attr = rawAttr := rfl
 theorem ra_stream (t : τ) : rawAttr (.host .self) 0x5f73747265616d t = .ok (.host .stream) := rfl
-theorem rm_read (R : RawStream τ) (n : Nat) (t : τ) (kw : List (Name × V WO)) :
+theorem rm_read (R : RawStream τ) (n : Nat) (t : τ) (kw : List (Name × V SWO)) :
     rawMcall R (.host .stream) 0x72656164 [.int (n : Int)] kw t = (.ok (.bytes (R.read n t).1), (R.read n t).2) := by
   simp [rawMcall]
-theorem rm_line (R : RawStream τ) (t : τ) (kw : List (Name × V WO)) :
+theorem rm_line (R : RawStream τ) (t : τ) (kw : List (Name × V SWO)) :
     rawMcall R (.host .stream) 0x726561646c696e65 [] kw t = (.ok (.bytes (R.line t).1), (R.line t).2) := rfl
 
 /-- `_read_bytes(size)` on what `stream.read(size)` returned -/
-def classifyRead (n : Nat) (d : Bytes) : X WO (V WO) :=
+def classifyRead (n : Nat) (d : Bytes) : X SWO (V SWO) :=
   if d.length = 0 ∧ 0 < n then .error (.exc xEOFError 0)
   else if 0 < d.length ∧ d.length < n then .error (.exc xUBXStreamError 0)
   else .ok (.bytes d)
@@ -106,7 +106,7 @@ theorem read_bytes_eq (R : RawStream τ) (fuel : Nat) (n : Nat) (t : τ) :
       simp [classifyRead, h0, hlt]
 
 /-- `_read_line()` on what `stream.readline()` returned -/
-def classifyLine (d : Bytes) : X WO (V WO) :=
+def classifyLine (d : Bytes) : X SWO (V SWO) :=
   if d.length = 0 then .error (.exc xEOFError 0)
   else if d.drop (d.length - 1) ≠ [0x0a] then .error (.exc xUBXStreamError 0)
   else .ok (.bytes d)
